@@ -244,6 +244,9 @@ def _run_hyp(prop, comp, tier, shard, nshards, ctx, tally, deadline):
     state = {"last_fail": None}
     strat = comp.strategy(tier)
     shrink_budget = 90 if tier == "quick" else 300
+    if os.environ.get("VERIF_SHRINK_S"):
+        # sensitivity runs over many broken trees only need the verdict, not a minimal case
+        shrink_budget = float(os.environ["VERIF_SHRINK_S"])
 
     @hypothesis.seed(derive_seed(prop, comp.name, shard))
     @settings(max_examples=n, database=None, deadline=None, derandomize=False,
